@@ -210,35 +210,56 @@ def encoding_chain(ctx: Ctx) -> None:
     # open(): explicit encoding becomes the single tried encoding
     fo = p.func(OPEN)
     lo = locals_of(fo)
-    oc2_ = [c for c in calls(fo) if callee_name(ctx, fo, c) == OWDE]
-    te_arg = None
-    if len(oc2_) == 1:
-        te_arg = {k.arg: k.value for k in oc2_[0].keywords}.get("try_encodings")
-    te_name = te_arg.id if isinstance(te_arg, ast.Name) else "try_encodings"
-    bs = lo.b.get(te_name, [])
-    shapes = []
-    for b in bs:
-        v = b.value
-        if isinstance(v, ast.Name) and try_ev(ctx, fo, v) == p.const("simfile", "ENCODINGS"):
-            shapes.append("default")
-        elif (isinstance(v, ast.List) and len(v.elts) == 1 and isinstance(v.elts[0], ast.Call) and isinstance(v.elts[0].func, ast.Attribute)
-              and v.elts[0].func.attr == "pop" and try_ev(ctx, fo, v.elts[0].args[0]) == "encoding"):
-            fs = facts(ctx, fo, b.node)
-            cond = any(pol and isinstance(a, ast.Compare) and isinstance(a.ops[0], ast.In) and try_ev(ctx, fo, a.left) == "encoding" for a, pol in fs)
-            shapes.append("explicit" if cond else "explicit-unguarded")
+    enc_const = p.const("simfile", "ENCODINGS")
+
+    def has_enc(fs):
+        for a, pol in fs:
+            if isinstance(a, ast.Compare) and len(a.ops) == 1 and isinstance(a.ops[0], (ast.In, ast.NotIn)) and try_ev(ctx, fo, a.left) == "encoding" \
+                    and isinstance(a.comparators[0], ast.Name) and a.comparators[0].id == fo.has_kwargs():
+                return pol if isinstance(a.ops[0], ast.In) else not pol
+        return None
+
+    def classify(e, at):
+        if e is None:
+            return "default"
+        if isinstance(e, ast.Name) and e.id in lo.b and not lo.is_param(e.id):
+            kinds = sorted(classify(b.value, b.node) if b.kind == "assign" else "other" for b in lo.b[e.id])
+            return "name:" + ",".join(kinds)
+        if try_ev(ctx, fo, e) == enc_const:
+            return "default"
+        if (isinstance(e, ast.List) and len(e.elts) == 1 and isinstance(e.elts[0], ast.Call) and isinstance(e.elts[0].func, ast.Attribute) and e.elts[0].func.attr == "pop"
+                and isinstance(e.elts[0].func.value, ast.Name) and e.elts[0].func.value.id == fo.has_kwargs() and e.elts[0].args and try_ev(ctx, fo, e.elts[0].args[0]) == "encoding"):
+            return "explicit" if has_enc(facts(ctx, fo, at)) is True else "explicit-unguarded"
+        return "other:" + src(e, 60)
+
+    sites = [c for c in calls(fo) if callee_name(ctx, fo, c) == OWDE]
+    ctx.floor("open_with_detected_encoding call sites in open()", len(sites), 1)
+    covered = set()
+    for c2 in sites:
+        kw2 = {k.arg: k.value for k in c2.keywords}
+        te = kw2.get("try_encodings", c2.args[1] if len(c2.args) > 1 else None)
+        kind = classify(te, c2)
+        he = has_enc(facts(ctx, fo, c2))
+        if kind == "name:default,explicit":
+            good = True
+            covered |= {"default", "explicit"}
+        elif kind == "explicit":
+            good = he is True
+            covered.add("explicit")
+        elif kind == "default":
+            good = he is False or len(sites) == 1 and False
+            covered.add("default")
         else:
-            shapes.append("other:" + (src(v) if v is not None else b.kind))
-    ctx.expect("R-FWD", fo, "open(): try_encodings is ENCODINGS, or [the explicit encoding] when one is given", sorted(shapes) == ["default", "explicit"], str(shapes),
-               f"bindings of try_encodings: {shapes}", node=fo.node)
-    oc2 = [c for c in calls(fo) if callee_name(ctx, fo, c) == OWDE]
-    c2 = one(oc2, f"call of open_with_detected_encoding in {OPEN}")
-    kw2 = {k.arg: k.value for k in c2.keywords}
-    ctx.expect("R-FWD", fo, "open() passes its try_encodings on", isinstance(kw2.get("try_encodings"), ast.Name) and kw2["try_encodings"].id == te_name and bool(bs), "",
-               f"try_encodings= is {src(kw2['try_encodings']) if 'try_encodings' in kw2 else 'absent'}", node=c2)
-    ctx.expect("R-FWD", fo, "open() opens the caller's filename", bool(c2.args) and isinstance(c2.args[0], ast.Name) and c2.args[0].id == "filename", "", "", node=c2)
+            good = False
+        ctx.expect("R-FWD", fo, f"open(): tried encodings at {src(c2.func, 30)}() are ENCODINGS, or [the explicit encoding] when one is given", good, kind,
+                   f"try_encodings is {kind} under {unparse_facts(facts(ctx, fo, c2))}: an explicit encoding= must become the single tried encoding, otherwise the default list applies", node=c2)
+        ctx.expect("R-FWD", fo, "open() opens the caller's filename", bool(c2.args) and isinstance(c2.args[0], ast.Name) and c2.args[0].id == "filename" and lo.only_param("filename"), "", "", node=c2)
+    ctx.expect("R-FWD", fo, "open() handles both the default list and an explicit encoding", covered == {"default", "explicit"}, str(sorted(covered)), f"covered cases: {sorted(covered)}", node=fo.node)
     rr = [r for r in body_walk(fo.node) if isinstance(r, ast.Return)]
-    good = all(isinstance(r.value, ast.Subscript) and r.value.value is c2 and try_ev(ctx, fo, r.value.slice) == 0 for r in rr) and bool(rr)
-    ctx.expect("R-TABLE", fo, "open() returns the simfile element of the result", good, "", "open() does not return result[0]", node=fo.node)
+    good = bool(rr) and all(isinstance(r.value, ast.Subscript) and r.value.value in sites and try_ev(ctx, fo, r.value.slice) == 0 for r in rr)
+    cfo = ctx.cfg(fo)
+    good = good and cfo.must_pass([cfg_node_of(cfo, fo, r) for r in rr]) is None
+    ctx.expect("R-TABLE", fo, "open() returns the simfile element of the result", good, "", "open() does not return result[0] on every path", node=fo.node)
 
 
 class MutateModel:
